@@ -17,6 +17,13 @@ Mirrored code:
     `rdone`      — `WaitForIndexingUpto(currTxID)` then ONE observation of the index at some ts `t` with
                    `currTxID ≤ t ≤ indexed ts` (`Get` reads the live index: t = indexed ts; `GetAll`/`Scan`
                    use `SnapshotMustIncludeTxID(currTxID)` which may hand out an older root ≥ currTxID).
+* `GetAll` is NOT one observation in the code: `snap := snapshotSince(...)` (one `rdone` step: the snapshot ts `t` is fixed),
+  then `for _, key := range req.Keys { d.get(ctx, EncodeKey(key), <src>, true) }` — one `rdone` step PER KEY, each a
+  separate index lookup with arbitrary other steps (commits, indexing) in between — and a last `rdone` step that returns the
+  collected entries.  `<src>` is read from the code by the extractor (`Gen.dbGetAllLooksUpInSnapshot`): the snapshot ⇒ the
+  lookup reads ts `t`; anything else (the live index `d.st`) ⇒ it reads the current `idx` (`getAllSrc`).
+  `Scan` iterates the snapshot's key reader and resolves every row in that snapshot (`Gen.dbScanResolvesInSnapshot`), `Count` /
+  `History` read through one read-only tx: they stay one observation of ts `t`.
 * `Get` on a key that holds a REFERENCE does TWO observations of the live index (`getAtTx` reads the
   reference, `resolveValue` calls `getAtTx` again for the referenced key): `robs1` then `rdone`.
 * preconditions: `preconditions.go` `KeyMustExist` / `KeyMustNotExist` (`idx.Get` = filters IgnoreExpired +
@@ -32,6 +39,7 @@ observations — tbtree `rwmutex.RLock` (one `Get`) or a persistent snapshot roo
 The model records the history itself: a global step counter `now` stamps invocations and responses.
 -/
 import ImmuModel.Mvcc.Model
+import ImmuModel.Gen.C06
 
 namespace ImmuModel.Mvcc
 
@@ -112,12 +120,16 @@ def resolveOn (log : Log) (t : Nat) (k : Bytes) : QRes :=
       | none => .notFound
       | some tv => .entry tk tv v.tx
 
+/-- the entries `GetAll(ks)` answers on ONE view: request order, keys that are not found are skipped. -/
+def getAllEntries (log : Log) (t : Nat) (ks : List Bytes) : List (Bytes × Ver) :=
+  ks.filterMap fun k =>
+    match resolveOn log t k with
+    | .entry k' v _ => some (k', v)
+    | _ => none
+
 def evalQuery (cfg : Cfg) (log : Log) (t : Nat) : Query → QRes
   | .get k => resolveOn log t k
-  | .getAll ks => .entries (ks.filterMap fun k =>
-      match resolveOn log t k with
-      | .entry k' v _ => some (k', v)
-      | _ => none)
+  | .getAll ks => .entries (getAllEntries log t ks)
   | .scan spec limit =>
       .entries ((((rawScan cfg.U cfg.maxKey spec (viewGet log t)).filter (fun r => !r.2.del)).drop spec.offset).take limit)
   | .history k => .entries ((historyOf log t k).map fun v => (k, v))
@@ -146,6 +158,8 @@ inductive Phase where
   | wPre (id : Nat)               -- precommitted with `id`, waiting for commit + indexing
   | rInvoked (c0 : Nat)           -- read invoked, `c0 = committed` at invocation
   | rHalf (c0 : Nat) (t1 : Nat) (refTx : Nat) (atTx : Nat) (target : Bytes)  -- Get saw a reference at ts t1
+  /-- GetAll holds a snapshot of ts `t`; `todo` = keys still to look up, `acc` = entries collected so far. -/
+  | rSnap (c0 : Nat) (t : Nat) (todo : List Bytes) (acc : List (Bytes × Ver))
 deriving DecidableEq, Repr, Inhabited
 
 structure OpRec where
@@ -185,8 +199,18 @@ inductive DbStep where
   | wdone (c : Nat)
   /-- first observation of a `Get` (only meaningful for `Query.get`) / the single observation of the others;
   `choice` picks the observed ts in `[c0, idx]`. -/
-  | rdone (c : Nat) (choice : Nat)
+  | rdone (c : Nat) (choice : Nat)   -- also: each lookup of a `GetAll` in progress and its return
 deriving DecidableEq, Repr, Inhabited
+
+/-- the ts one per-key lookup of `GetAll` reads: the snapshot's (`d.get(ctx, key, snap, true)`) or — when the code passes
+anything else, e.g. the store itself — that of the live index at the moment of the lookup. -/
+def getAllSrc (snapTs liveTs : Nat) : Nat := if ImmuModel.Gen.dbGetAllLooksUpInSnapshot then snapTs else liveTs
+
+/-- one iteration of the loop of `GetAll`: found ⇒ appended, `ErrKeyNotFound` ⇒ skipped. -/
+def getAllLookup (log : Log) (ts : Nat) (k : Bytes) (acc : List (Bytes × Ver)) : List (Bytes × Ver) :=
+  match resolveOn log ts k with
+  | .entry k' v _ => acc ++ [(k', v)]
+  | _ => acc
 
 def setClient (d : Db) (c : Nat) (cl : Client) : Db := { d with clients := d.clients.set c cl }
 
@@ -250,6 +274,10 @@ def dbStepCore (cfg : Cfg) (d : Db) : DbStep → Db
               match refTarget v with
               | none => finish d c cl (.answer t (.entry k v 0))
               | some (atTx, tk) => setClient d c { cl with phase := .rHalf c0 t v.tx atTx tk }
+          | .getAll ks =>
+            -- `snapshotSince`: SnapshotMustIncludeTxID(c0), refused when the index is behind c0; nothing is read yet
+            if c0 ≤ d.idx then setClient d c { cl with phase := .rSnap c0 (clamp c0 d.idx choice) ks [] }
+            else finish d c cl .failed
           | q =>
             -- SnapshotMustIncludeTxID(c0): refused when the index is behind c0
             if c0 ≤ d.idx then
@@ -262,6 +290,10 @@ def dbStepCore (cfg : Cfg) (d : Db) : DbStep → Db
         match getAt d.log t atTx tk with
         | none => finish d c cl (.answer2 t1 t .notFound)
         | some tv => finish d c cl (.answer2 t1 t (.entry tk tv refTx))
+      | .rSnap c0 t todo acc, .read _ =>
+        match todo with
+        | k :: rest => setClient d c { cl with phase := .rSnap c0 t rest (getAllLookup d.log (getAllSrc t d.idx) k acc) }
+        | [] => finish d c cl (.answer t (.entries acc))
       | _, _ => d
     | none => d
 
